@@ -52,6 +52,7 @@ type udpLookup struct {
 	Datagrams      []udpDatagram
 	WaitRetransmit bool // answer only once a retransmitted query has arrived (about 2 s)
 	Silent         bool // never answer over UDP (thorough only: 20 s)
+	MustSucceed    bool // the TCP side is healthy and complete: whatever UDP does, the lookup has to succeed
 	OpenEnded      bool // the datagrams leave a query unanswered without truncation (thorough only: 20 s)
 	TCP            lookupScript
 }
@@ -265,6 +266,9 @@ func realtimeScript(s lookupScript) lookupScript {
 		for i := range s.Conns[ci].Items {
 			it := &s.Conns[ci].Items[i]
 			it.DelayMs = 0
+			if it.Msg.PadTTL < 3600 {
+				it.Msg.PadTTL = 3600
+			}
 			if it.Kind == kSilence {
 				it.Kind = kZeroLen
 			}
@@ -352,6 +356,26 @@ func genUDPLookup(rt *rapid.T, ag *addrGen) udpLookup {
 	}
 	l.WaitRetransmit = rapid.IntRange(0, 19).Draw(rt, "waitRetransmit") == 13
 	s, _ := genLookupScript(rt, ag)
+	// "TC=1 over UDP, then the large answer over TCP": when the server truncates, the TCP side
+	// usually carries an answer that really does not fit a datagram (up to the 65535-byte limit).
+	tcFam := 0
+	for i := range l.Datagrams {
+		if d := &l.Datagrams[i]; d.From == fromServer && d.It.Kind == kResp && d.It.Msg.TC && tcFam == 0 {
+			tcFam = d.It.Fam
+		}
+	}
+	if tcFam != 0 && rapid.IntRange(0, 3).Draw(rt, "bigAfterTC") != 0 {
+		big := item{Kind: kResp, Fam: tcFam, Msg: genBigMsg(rt, tcFam, ag, false), RK: rkValid}
+		other := item{Kind: kResp, Fam: 10 - tcFam, Msg: genUDPMsg(rt, 10-tcFam, ag, false)}
+		if rapid.Bool().Draw(rt, "bigBothFamilies") {
+			other.Msg = genBigMsg(rt, 10-tcFam, ag, false)
+		}
+		items := []item{big, other}
+		if rapid.Bool().Draw(rt, "otherFirst") {
+			items = []item{other, big}
+		}
+		s = lookupScript{Conns: []connScript{{Items: items}}}
+	}
 	l.TCP = realtimeScript(s)
 	return l
 }
@@ -374,6 +398,7 @@ func goodUDPLookup(ag *addrGen) udpLookup {
 type udpExpect struct {
 	desc  string
 	entry *entry // nil: failure expected
+	big   int    // size of the largest padded (TCP) answer among the accepted responses
 	dials int    // -1: any
 	why   string // why this variant was rejected
 }
@@ -436,6 +461,9 @@ func evalUDPVariants(name string, l *udpLookup, useTCP bool, obs []*connObs, t0,
 			x.why = v
 		} else if evl.done() {
 			x.entry = buildEntry(evl.acc, t0, t1, left...)
+			for _, it := range evl.acc {
+				x.big = max(x.big, it.Msg.PadTo)
+			}
 		}
 		out = append(out, x)
 	}
@@ -445,10 +473,10 @@ func evalUDPVariants(name string, l *udpLookup, useTCP bool, obs []*connObs, t0,
 var recUDP = ev.New("C17", "udp-loopback",
 	"rapid, real time: resolver with direct UDP client towards a kernel socket on 127.0.0.1 plus (usually) the in-memory TCP upstream as fallback; per lookup 0..6 datagrams in a "+
 		"drawn order: acceptable answers from the server, spoofed answers with the right IDs from a foreign port or a foreign IP (127.0.0.2, same port) carrying poison addresses, "+
-		"truncated answers, foreign-ID/garbage/QR=0/RA=0/short/cut/empty datagrams from the server; optionally the server answers only a retransmitted query; then a second lookup of the "+
+		"truncated answers (then the TCP side usually carries a large answer padded to 512..65535 bytes), foreign-ID/garbage/QR=0/RA=0/short/cut/empty datagrams from the server; optionally the server answers only a retransmitted query; then a second lookup of the "+
 		"same name (cache hit expected for TTL>=3600, fresh answers expected after a failure). Non-trivial: a spoofed datagram arrives before the lookup is complete AND (TCP fallback "+
 		"happened or an unusable server datagram was sent); distinct key = datagram class string + outcome").
-	Require("spoofed-before-complete", "tcp-fallback", "truncated-udp", "udp-complete", "second-lookup-cache-hit", "second-lookup-after-failure", "foreign-ip", "foreign-port")
+	Require("tc-udp-then-tcp-answer>1234B", "spoofed-before-complete", "tcp-fallback", "truncated-udp", "udp-complete", "second-lookup-cache-hit", "second-lookup-after-failure", "foreign-ip", "foreign-port")
 
 func runUDPPlan(t *testing.T, p *udpPlan) (viol string, labels map[string]bool, key string) {
 	labels = map[string]bool{}
@@ -530,6 +558,9 @@ func runUDPPlan(t *testing.T, p *udpPlan) (viol string, labels map[string]bool, 
 		if !l.Silent && !l.OpenEnded && t1.Sub(t0) > promptBound {
 			return sigSlow + " " + ctxs(), labels, ""
 		}
+		if l.MustSucceed && out.isFailure() {
+			return "SIG=C17/udp-unanswered-or-unusable-but-healthy-tcp-retry-failed " + ctxs(), labels, ""
+		}
 		if badQ != "" {
 			return "SIG=C17/udp-query-wrong " + badQ + " " + ctxs(), labels, ""
 		}
@@ -602,6 +633,13 @@ func runUDPPlan(t *testing.T, p *udpPlan) (viol string, labels map[string]bool, 
 				if len(obs) > 0 {
 					labels["tcp-fallback"] = true
 					keyb.WriteString("=> ok-via-tcp ")
+					if x.big > 0 {
+						labels[bigClass(x.big)] = true
+						fmt.Fprintf(&keyb, "big=%d ", x.big)
+						if labels["truncated-udp"] && x.big > 1234 {
+							labels["tc-udp-then-tcp-answer>1234B"] = true
+						}
+					}
 				} else {
 					labels["udp-complete"] = true
 					keyb.WriteString("=> ok-via-udp ")
@@ -643,6 +681,21 @@ func describeScript(s *lookupScript) string {
 }
 
 func TestResolverUDP(t *testing.T) {
+	// One "UDP unanswered for the whole UDP wait, TCP healthy" case (about 20 s of real time) runs
+	// next to the generated scenarios so that the quick tier has it too.
+	silent := make(chan string, 1)
+	go func() {
+		v, _ := runSilence(t, silenceScens[0])
+		silent <- v
+	}()
+	defer func() {
+		if t.Failed() {
+			return
+		}
+		if v := <-silent; v != "" && !strings.HasPrefix(v, harnessTrouble) {
+			t.Fatalf("%s", v)
+		}
+	}()
 	rapid.Check(t, func(rt *rapid.T) {
 		p := &udpPlan{UseTCP: rapid.IntRange(0, 5).Draw(rt, "useTCP") != 0}
 		p.L[0] = genUDPLookup(rt, &addrGen{scope: 1})
@@ -677,49 +730,76 @@ func TestResolverUDP(t *testing.T) {
 }
 
 var recSilence = ev.New("C17", "udp-silence",
-	"fixed real-time scenarios (thorough tier): the UDP upstream never answers / answers only the A query; after the 20 s UDP time limit the resolver must retry the open "+
-		"queries over TCP and return those answers; queries must have been retransmitted meanwhile. Non-trivial: always; distinct key = scenario")
+	"fixed real-time scenarios (first one in quick next to the generated UDP scenarios, all four in thorough): resolver with UDP and TCP client, the UDP upstream never answers / answers only "+
+		"the A query for the whole UDP wait (20 s) while the TCP side is healthy (AAAA answer of 16385 / 65535 bytes); the lookup must succeed with exactly the TCP answers (hard assertion), "+
+		"the TCP attempt must get its own time (no dial on an expired context, no hang-up on a healthy connection), queries must have been retransmitted meanwhile, "+
+		"without a TCP client the lookup must fail and the next lookup must work. Non-trivial: always; distinct key = scenario").
+	Require("silence-all-silent-tcp-fallback")
 
-// TestResolverUDPSilence runs the 20 s cases in parallel (thorough tier only).
+type silenceScen struct {
+	name    string
+	answerA bool
+	useTCP  bool
+	big     int // size of the AAAA answer on the TCP side (0: small)
+}
+
+var silenceScens = []silenceScen{
+	{"all-silent-tcp-fallback", false, true, 16385},
+	{"a-answered-aaaa-silent", true, true, 0},
+	{"all-silent-no-tcp", false, false, 0},
+	{"all-silent-tcp-fallback-64k", false, true, 65535},
+}
+
+// runSilence plays one scenario in which the UDP upstream stays silent for the whole UDP wait
+// (about 20 s of real time) while the TCP side is healthy.
+func runSilence(t *testing.T, sc silenceScen) (viol string, elapsed time.Duration) {
+	ag := &addrGen{scope: 9}
+	p := &udpPlan{UseTCP: sc.useTCP}
+	l := udpLookup{Silent: !sc.answerA, OpenEnded: sc.answerA, MustSucceed: sc.useTCP}
+	if sc.answerA {
+		l.Datagrams = []udpDatagram{{It: item{Kind: kResp, Fam: 4, Msg: wmsg{QR: true, RA: true, RD: true, Answers: []rr{{Type: tA, TTL: 3600, Addr: ag.v4(false)}}}}}}
+	}
+	six := wmsg{QR: true, RA: true, RD: true, Answers: []rr{{Type: tAAAA, TTL: 3600, Addr: ag.v6(false)}}}
+	if sc.big > 0 {
+		six = genBigFixed(6, sc.big, true, ag)
+	}
+	l.TCP = lookupScript{Conns: []connScript{{Items: []item{
+		{Kind: kResp, Fam: 4, Msg: wmsg{QR: true, RA: true, RD: true, Answers: []rr{{Type: tA, TTL: 3600, Addr: ag.v4(false)}}}},
+		{Kind: kResp, Fam: 6, Msg: six},
+	}}}}
+	p.L[0] = l
+	p.L[1] = goodUDPLookup(&addrGen{scope: 10})
+	start := time.Now()
+	viol, labels, key := runUDPPlan(t, p)
+	elapsed = time.Since(start)
+	if viol != "" {
+		return viol, elapsed
+	}
+	ls := []string{"silence-" + sc.name}
+	for l := range labels {
+		ls = append(ls, l)
+	}
+	recSilence.Case(sc.name+"|"+key, true, ls...)
+	recSilence.Sample(map[string]any{"scenario": sc.name, "elapsed_s": strconv.FormatFloat(elapsed.Seconds(), 'f', 1, 64), "outcome": key})
+	return "", elapsed
+}
+
+// TestResolverUDPSilence runs the 20 s cases in parallel (thorough tier only; the first scenario
+// also runs in the quick tier, concurrently with TestResolverUDP's generated scenarios).
 func TestResolverUDPSilence(t *testing.T) {
 	if os.Getenv("VERIF_TIER") != "thorough" && os.Getenv("VERIF_C17_SILENCE") == "" {
 		t.Skip("20 s real-time scenarios run in the thorough tier only")
 	}
-	type scen struct {
-		name    string
-		answerA bool
-		useTCP  bool
-	}
-	for _, sc := range []scen{{"all-silent-tcp-fallback", false, true}, {"a-answered-aaaa-silent", true, true}, {"all-silent-no-tcp", false, false}} {
+	for _, sc := range silenceScens {
 		t.Run(sc.name, func(t *testing.T) {
 			t.Parallel()
-			ag := &addrGen{scope: 9}
-			p := &udpPlan{UseTCP: sc.useTCP}
-			l := udpLookup{Silent: !sc.answerA, OpenEnded: sc.answerA}
-			if sc.answerA {
-				l.Datagrams = []udpDatagram{{It: item{Kind: kResp, Fam: 4, Msg: wmsg{QR: true, RA: true, RD: true, Answers: []rr{{Type: tA, TTL: 3600, Addr: ag.v4(false)}}}}}}
-			}
-			l.TCP = lookupScript{Conns: []connScript{{Items: []item{
-				{Kind: kResp, Fam: 4, Msg: wmsg{QR: true, RA: true, RD: true, Answers: []rr{{Type: tA, TTL: 3600, Addr: ag.v4(false)}}}},
-				{Kind: kResp, Fam: 6, Msg: wmsg{QR: true, RA: true, RD: true, Answers: []rr{{Type: tAAAA, TTL: 3600, Addr: ag.v6(false)}}}},
-			}}}}
-			p.L[0] = l
-			p.L[1] = goodUDPLookup(&addrGen{scope: 10})
-			start := time.Now()
-			viol, labels, key := runUDPPlan(t, p)
+			viol, _ := runSilence(t, sc)
 			if strings.HasPrefix(viol, harnessTrouble) {
 				t.Skip(viol)
 			}
 			if viol != "" {
 				t.Fatalf("%s", viol)
 			}
-			el := time.Since(start)
-			ls := []string{"silence-" + sc.name}
-			for l := range labels {
-				ls = append(ls, l)
-			}
-			recSilence.Case(sc.name+"|"+key, true, ls...)
-			recSilence.Sample(map[string]any{"scenario": sc.name, "elapsed_s": strconv.FormatFloat(el.Seconds(), 'f', 1, 64), "outcome": key})
 		})
 	}
 }
